@@ -64,6 +64,14 @@ CHECKS = {
                 technique="deviation-bounded exhaustive enumeration of environment answers (Pending / Err / EOF / connect failure at every connect, poll_ready, start_send, poll_flush, poll_next) to the real backend connection handling with real CmdCtx tasks",
                 text="BACKEND LEVEL: the real sender stack (gen_sender_factory: CachedSender, RoundRobinSenderGroup, RecoverableBackendNode, handle_backend/handle_conn with retry, ReplyCommitHandler) runs over a scripted connection that answers every request with the id found in the request bytes; scenarios: batching {disabled, fixed, dynamic} x low flush interval {0, 1h} x 1-2 connections x pipelines of 1-3 requests (late submission) x one vanished client; every script with <= 3 (thorough 4) deviations is executed to completion; oracle: every request gets exactly one result, a successful result carries the request's own id and only if the backend received its bytes, nothing stays unanswered.",
                 note="handle_session (client-side ordering) is not exercised by this engine yet. The scripted stream ends after an error item like tokio_util's FramedRead. Trusted: scripted environment, driver time policy (1 ms / 1 s idle advances)."),
+    "C02": dict(engine="simnet", cat="model_checking", ref="3/C02",
+                technique="explicit enumeration of reachable broker states x encoding x migration limit x handshake phase; real coordinator sync onto fresh real proxies; exhaustive routing probes (start proxy x boundary slots, all 16384 slots on a sample) against the broker-designated owner",
+                text="Every distinct broker state (routing-relevant projection) reachable by operation sequences up to the depth bound on 3 hosts x 2 proxies is combined with {plain, compressed} SETCLUSTER, migration_limit {0,1} and the handshake phases A (nothing served), C (PRECHECK+PRESWITCH served, scan held), D (all served); fresh real proxies are synchronised by the real ProxyMetaRespSynchronizer until they report the broker's epoch; every live member proxy x every probe slot issues a SET following MOVED; oracle from the broker view: executed on exactly the designated master (source in A, destination in C/D), <=1 redirection (<=3 while migrating), the key is never seen by an unrelated node.",
+                note="Trusted: Redis stand-in, harness mini-session, phase control through gating of UMCTL PRECHECK/PRESWITCH/FINALSWITCH and SCAN. Hash-order dependent choices (bystander MOVED target) are accepted either way."),
+    "C14": dict(engine="simnet", cat="model_checking", ref="3/C14",
+                technique="same state x encoding x limit x phase enumeration as C02, x NODES format version; CLUSTER NODES and CLUSTER SLOTS of every member proxy parsed and compared with each other and with routing probes",
+                text="For every case of the C02 enumeration and every live member proxy the real CLUSTER NODES (V1 and V2 format) and CLUSTER SLOTS replies are parsed: every covered slot appears under exactly one node line / one SLOTS entry, both commands give the same slot->address map with consistent node ids; for every probe slot the advertised node equals what routing does from that proxy (itself iff executed locally, else the MOVED target); migrating slots are advertised at the source in phase A and at the destination in C/D on the two involved proxies, at either of them on bystanders.",
+                note="Same trusted base as C02."),
 }
 
 NOT_YET = {
